@@ -166,7 +166,7 @@ fn cmd_chain(a: &Args) {
     let mut out = Out::new(&a.s("out", "chain.ndjson"));
     let net = drive::net_of(&a.s("net", "custom02"));
     let fm: u128 = a.s("feemult", "1000").parse().unwrap();
-    chaindrive::chain_history(&mut out, &a.s("tag", "chain"), a.u64("seed", 1), net, a.u64("blocks", 6) as usize, fm, a.u64("big", 0) == 1);
+    chaindrive::chain_history(&mut out, &a.s("tag", "chain"), a.u64("seed", 1), net, a.u64("blocks", 6) as usize, fm, a.u64("big", 0));
     let n = out.finish();
     println!("{}", json!({"records": n}));
 }
@@ -235,6 +235,8 @@ fn cmd_tips(a: &Args) {
     let net = drive::net_of(&a.s("net", "custom02"));
     if a.s("net", "custom02") == "genesis" {
         tipdrive::genesis_configs(&mut out, &a.s("tag", "genesis"));
+    } else if a.s("net", "custom02") == "heights" {
+        tipdrive::round_heights(&mut out, &a.s("tag", "heights"), a.u64("seed", 1));
     } else {
         tipdrive::tip_history(&mut out, &a.s("tag", "tips"), a.u64("seed", 1), net);
     }
